@@ -136,7 +136,12 @@ def run_history(case: dict) -> dict:
                 elif op == "iadd":
                     cont += concretise(arg, variant + k)
                 elif op == "reset":
-                    cont.empty()
+                    # a reset reaches the container directly, or through its detector (the per-readout reset of a
+                    # non-destructive exposure, `empty(False)`, still empties photon, signal and image)
+                    if (variant + k) % 2 == 0 and det is not None and kind in ("photon", "signal", "image"):
+                        det.empty((variant + k) % 4 == 0)
+                    else:        # (pixel and phase are zeroed, not emptied, by the detector-level reset)
+                        cont.empty()
                 elif op == "read":
                     three = hasattr(cont._array, "dims")
                     got = cont.array_3d if three else cont.array
